@@ -17,6 +17,12 @@ CONJ = {"global_error_within_constant_times_tolerance", "euler_error_within_firs
 FAMS = [["lin"], ["rot", "lin"], ["tv"], ["logistic", "recip"], ["forcing", "relax"]]
 
 
+def stable(key):
+    """seed derived from a key without Python's per-process string hashing"""
+    import zlib
+    return zlib.crc32(repr(key).encode())
+
+
 def gen(ctx, rng, rungs, nfam, ncx, npair):
     cases = []
     ladder_all = [3, 4, 5, 6, 7, 8, 9, 10]
@@ -25,7 +31,7 @@ def gen(ctx, rng, rungs, nfam, ncx, npair):
             st = rng.getstate()
             picks = sorted(rng.sample(ladder_all, rungs))
             for e in picks:
-                rng2 = random.Random(hash((ctx.seed, solver, tuple(fam))) & 0xFFFFFF)
+                rng2 = random.Random(stable((ctx.seed, solver, tuple(fam))))
                 c = ivpgen.accuracy_case(rng2, solver, fam, 10.0 ** (-e))   # same problem on every rung
                 c["acc"] = "global"
                 cases.append(c)
@@ -60,7 +66,7 @@ def gen(ctx, rng, rungs, nfam, ncx, npair):
             cases += [ra, cbc]
     # Euler step ladders
     for fam in FAMS[:nfam]:
-        rng2 = random.Random(hash((ctx.seed, "euler", tuple(fam))) & 0xFFFFFF)
+        rng2 = random.Random(stable((ctx.seed, "euler", tuple(fam))))
         base = ivpgen.accuracy_case(rng2, "euler", fam, 1e-3, span=rng2.uniform(0.5, 1.5))
         for dt in (0.02, 0.01, 0.005, 0.0025)[:rungs + 1]:
             c = dict(base)
